@@ -157,7 +157,8 @@ def run(scn):
 def describe(tier):
     return {
         "rule": "all 37 catalogue crops at full length x soils x stress words (normal/warm, drought from day 25, SAT start under the wet word, "
-                "20-25-day cold and heat blocks around flowering), a water-table menu on a 3 m profile, a penetrability-50 layer inside the root zone, "
+                "20-25-day cold and heat blocks around flowering), a water-table menu on a 3 m profile, a penetrability-50 layer inside the root zone, a restrictive layer at every position relative to Zmax, deficit irrigation and the recorded Tunis climate at full length, bunded ponded fields, fallow rows after a crop death, "
+                "keyword overrides of the envelope parameters, degree-day methods 1-3, the crop-type switches flipped or at the end of their documented range (WPy 50/60, Determinant, SwitchGDD=1 for calendar crops), "
                 "plus scaled crops with a single deviating day {C,H" + ("" if tier == "quick" else ",D,S") + "} at every" + (" second" if tier == "quick" else "")
                 + " day of the season; envelope and monotonicity relations are evaluated on every in-season state / consecutive pair with that "
                 "season's crop copy, zero-ness on every off-season row. Non-trivial = at least one regime witness hit.",
